@@ -159,6 +159,10 @@ def enc_label(x):
         return ['date', x.isoformat()]
     if isinstance(x, tuple):
         return ['tuple', [enc_label(y) for y in x]]
+    if isinstance(x, frozenset):
+        return ['frozenset', [enc_label(y) for y in sorted(x, key=repr)]]
+    if isinstance(x, bytes):
+        return ['bytes', x.hex()]
     return enc_val(x)
 
 
@@ -176,6 +180,10 @@ def dec_label(j):
         return datetime.date.fromisoformat(j[1])
     if t == 'tuple':
         return tuple(dec_label(y) for y in j[1])
+    if t == 'frozenset':
+        return frozenset(dec_label(y) for y in j[1])
+    if t == 'bytes':
+        return bytes.fromhex(j[1])
     return dec_val(j)
 
 
